@@ -1168,3 +1168,116 @@ def tok_12(ctx, rep):
             'the step emits %d character(s) of the match but the next step starts %s: the characters in between are in no '
             'token and no prefix (or are scanned twice). Path: %s' % (E[1], 'behind the whole match' if P == 'END' else 'at start + %d' % P[1],
                                                                    ' -> '.join(trail(state))), witness=trail(state))
+
+
+# ---------------------------------------------------------------------------------------------------------------
+# TOK-13  the indentation of a logical line is decided once
+def tok_13(ctx, rep):
+    rep.rule('TOK-13', 'between two indentation decisions of tokenize_lines (a yield of INDENT / a call of the dedent helper under '
+                       'the line-start flag) the flag is assigned: a line whose indentation was evaluated does not stay "new", '
+                       'or the next physical line is measured as the same logical line again (INDENT directly followed by DEDENT)')
+    from ..paths import FactFlow, path_text
+    f = ctx.prog.func(TOK, 'tokenize_lines')
+    cfg = ctx.cfg(f)
+    flow = FactFlow(cfg)
+    # the dedent helper: nested / module-level generator that yields DEDENT tokens
+    helpers = set()
+    for g in list(f.nested.values()) + [h for h in f.mod.funcs.values() if h.cls is None and h.outer is None]:
+        if any(_yield_token_type(n) in ('DEDENT', 'ERROR_DEDENT') for n in walk_own(g.node)):
+            helpers.add(g.name)
+    helpers.discard(f.name)
+
+    def is_decision(node):
+        a = node.ast
+        if a is None or node.kind != 'stmt':
+            return False
+        if _yield_token_type(a) == 'INDENT':
+            return True
+        for c in ast.walk(a):
+            if isinstance(c, ast.Call) and isinstance(c.func, ast.Name) and c.func.id in helpers \
+                    and isinstance(getattr(c, '_parent', None), ast.YieldFrom):
+                return True
+        return False
+    decisions = [n for n in cfg.nodes if is_decision(n)]
+    # the epilogue (DEDENTs at the end of the input) is not a line-start decision: it is not inside the per-line loop
+    outer_for = [n for n in walk_own(f.node) if isinstance(n, ast.For)]
+    def in_line_loop(node):
+        p = node.stmt
+        while p is not None and p is not f.node:
+            if isinstance(p, ast.For) and p in outer_for and getattr(p, '_parent', None) is f.node:
+                return True
+            p = getattr(p, '_parent', None)
+        return False
+    decisions = [n for n in decisions if in_line_loop(n)]
+    if len(decisions) < 2:
+        raise AnalysisError('TOK-13: the indentation decisions of tokenize_lines were not found (%d)' % len(decisions))
+    # the flag: the plain name tested (positively) in the guards of the INDENT yield
+    from ..facts import guards_of
+    def flag_names(n):
+        names = set()
+        for t, pol in guards_of(n.stmt):
+            for part in (t.values if isinstance(t, ast.BoolOp) and isinstance(t.op, ast.And) else [t]):
+                if pol and isinstance(part, ast.Name):
+                    names.add(part.id)
+        return names
+    flags = None
+    for n in decisions:
+        if _yield_token_type(n.ast) == 'INDENT':
+            flags = flag_names(n) if flags is None else (flags & flag_names(n))
+    if not flags or len(flags) != 1:
+        raise AnalysisError('TOK-13: the line-start flag was not identified (%s)' % sorted(flags or []))
+    (flag,) = flags
+    # decisions taken at the start of a line: those under the flag (a dedent forced by a keyword in the middle of a
+    # broken bracket is another matter)
+    decisions = [n for n in decisions if flag in flag_names(n)]
+    dset = set(decisions)
+    from ..paths import facts_on_arrival
+
+    def guard_if(node):
+        p = node.stmt
+        while p is not None and p is not f.node:
+            if isinstance(p, ast.If) and any(isinstance(x, ast.Name) and x.id == flag for x in ast.walk(p.test)):
+                return p
+            p = getattr(p, '_parent', None)
+        return None
+    bad = None
+    flow = FactFlow(cfg, prune=True)
+    for d in decisions:
+        start = (d, frozenset(x for x in facts_on_arrival(cfg, flow, d) if x[0].split('#')[0] == flag), 0)
+        seen = {start: None}
+        todo = [start]
+        while todo and bad is None:
+            state = todo.pop(0)
+            node, facts, step = state
+            if step and node in dset:
+                if guard_if(node) is guard_if(d) and node.id > d.id:
+                    pass                        # a later step of the same decision (INDENT, then the dedent helper)
+                else:
+                    bad = state
+                    break
+            a = node.ast
+            assigns = node.kind == 'stmt' and isinstance(a, (ast.Assign, ast.AugAssign, ast.AnnAssign)) and any(
+                isinstance(t, ast.Name) and t.id == flag for t in ast.walk(a) if isinstance(getattr(t, 'ctx', None), ast.Store))
+            if step and assigns:
+                continue                        # the flag is decided anew on this way
+            for s2, lab, f2 in flow.successors(node, facts):
+                nxt = (s2, f2, 1)
+                if nxt not in seen:
+                    seen[nxt] = state
+                    todo.append(nxt)
+        if bad is not None:
+            path = []
+            k = bad
+            while k is not None:
+                path.append(k[0])
+                k = seen[k]
+            path.reverse()
+            rep.ob('TOK-13', TOK, f.qual, 'indentation decision `%s`' % head(d.stmt), False,
+                   'from this indentation decision the next one can be reached without %s having been assigned: the line stays '
+                   '"new" and the following physical line is measured as part of the same logical line. Path: %s'
+                   % (flag, ' -> '.join(path_text(path, limit=9))), witness=path_text(path, limit=9))
+            bad = None
+        else:
+            rep.ob('TOK-13', TOK, f.qual, 'indentation decision `%s`' % head(d.stmt), True)
+    rep.stat('tok13_decisions', len(decisions))
+    rep.minimum('TOK-13', 2)
